@@ -644,10 +644,15 @@ def r02d(model, ctx):
     # LHS on_Signal: mask to target width, sign-fold iff target signed
     fs = model.func(f"{PYRTL}::_LHSValueCompiler.on_Signal.gen")
     ifs = [s for s in fs.body if isinstance(s, ast.If) and unparse(s.test) == "value.shape().signed"]
+    # the signed/unsigned split inside gen() is the shape this rule reads; built elsewhere (hoisted prefix/suffix strings,
+    # a helper) it is not decided here
+    need(len(ifs) == 1 and ifs[0].body and ifs[0].orelse and isinstance(ifs[0].body[0], ast.Assign) and isinstance(ifs[0].orelse[0], ast.Assign),
+         "_LHSValueCompiler.on_Signal.gen: the signed/unsigned split of the stored value was not found")
     ok = len(ifs) == 1
     if ok:
         ts = template_of(ifs[0].body[0].value)
         tu = template_of(ifs[0].orelse[0].value)
+        need(ts is not None and tu is not None, "_LHSValueCompiler.on_Signal.gen: the value templates were not recognised")
         ok = ts is not None and tu is not None
         if ok:
             es, eu = ts.as_expr(), tu.as_expr()
